@@ -18,6 +18,7 @@ import (
 
 type c11Cell struct {
 	Real    bool   `json:"real,omitempty"` // the real janitor goroutine runs (real timers, virtual clock)
+	Conc    bool   `json:"conc,omitempty"` // a cleanup cycle runs concurrently with writes (all schedules)
 	Backend string `json:"backend"`
 	TTL     string `json:"ttl"`
 	DEA     string `json:"dea"` // "24h" | "1m"
@@ -75,6 +76,16 @@ func c11Cells(tier string) []Cell {
 		}
 	}
 
+	// A cleanup cycle concurrent with regular operations: whatever the interleaving, it may only remove entries
+	// that are long expired at the instant it removes them.
+	for _, b := range backendKinds {
+		for _, ttl := range []string{"5m", "unlimited"} {
+			for prog := 0; prog < 3; prog++ {
+				cells = append(cells, Cell{ID: c11Cell{Conc: true, Backend: b, TTL: ttl, DEA: "1m", First: prog}.id()})
+			}
+		}
+	}
+
 	// The janitor goroutine itself, started by the constructor exactly as in production: the cycle is not
 	// invoked through the accessor but by the daemon, on whatever object it was started with.
 	for _, b := range backendKinds {
@@ -86,6 +97,110 @@ func c11Cells(tier string) []Cell {
 	}
 
 	return cells
+}
+
+// c11Conc: k0 is preloaded long-expired, k1 never-expiring / fresh. One thread runs a cleanup cycle, another
+// writes (program 0: fresh Write(k0); 1: Write(k0) then Write(k2); 2: two cleanup threads + Write(k0)).
+// After all threads finished, k0 must hold the freshly written value and k1 must still be there.
+func c11Conc(cc c11Cell, env *Env) CellResult {
+	res := CellResult{Exhaustive: true, Outcomes: map[string]int{}}
+	cfg := c11Cfg(cc)
+	keys := sameShardKeys()
+
+	var b backend
+
+	body := func() {
+		vclock.Reset()
+		vclock.AutoTick = true
+
+		b = newBackend(cc.Backend, cfg)
+		ctx := context.Background()
+		_ = b.Write(cache.WithTTL(ctx, -48*time.Hour, false), keys[0], 0)
+		_ = b.Write(ctx, keys[1], 1)
+
+		vsched.SpawnThread("cleanup", func() { b.Cleanup() })
+
+		if cc.First == 2 {
+			vsched.SpawnThread("cleanup", func() { b.Cleanup() })
+		}
+
+		vsched.SpawnThread("writer", func() {
+			_ = b.Write(ctx, keys[0], 100)
+
+			if cc.First == 1 {
+				_ = b.Write(ctx, keys[2], 200)
+			}
+		})
+
+		vsched.Join()
+	}
+
+	check := func(r *vsched.Result) []Violation {
+		var vs []Violation
+
+		sig := fmt.Sprintf("C11 %s ttl=%s concurrent-cleanup", cc.Backend, cc.TTL)
+
+		if r.Deadlock || r.Panic != nil {
+			return []Violation{{Signature: sig + " fatal", Detail: fmt.Sprintf("deadlock=%v panic=%v %s", r.Deadlock, r.Panic, r.PanicStack)}}
+		}
+
+		have := map[string]interface{}{}
+		_, _ = b.Walk(func(k []byte, v interface{}, at time.Time) error {
+			have[string(k)] = v
+			return nil
+		})
+
+		if v, ok := have[string(keys[0])]; !ok || v != 100 {
+			vs = append(vs, Violation{Signature: sig + " fresh-entry-removed", Detail: fmt.Sprintf("after Write(k0) || Cleanup the freshly written entry is %v (present=%v); the cycle may only remove entries expired longer than DeleteExpiredAfter", v, ok)})
+		}
+
+		if _, ok := have[string(keys[1])]; !ok {
+			vs = append(vs, Violation{Signature: sig + " live-entry-removed", Detail: "a never-expiring / fresh entry nobody touched was removed by the cycle"})
+		}
+
+		if cc.First == 1 {
+			if _, ok := have[string(keys[2])]; !ok {
+				vs = append(vs, Violation{Signature: sig + " fresh-entry-removed", Detail: "a second freshly written entry was removed by the cycle"})
+			}
+		}
+
+		return vs
+	}
+
+	if env.Replay != nil {
+		r := vsched.Replay(env.Replay.Choices, body)
+		res.Violations = check(r)
+
+		fmt.Print(vsched.FormatTrace(r))
+
+		return res
+	}
+
+	seen := map[string]bool{}
+	st := vsched.Explore(vsched.Options{PreemptionBound: -1, EnvBound: 0, HBCache: true, MaxExecs: 300000, Deadline: env.Deadline}, body, func(r *vsched.Result) bool {
+		for _, v := range check(r) {
+			if !seen[v.Signature] {
+				seen[v.Signature] = true
+				v.Choices = r.Choices()
+				res.Violations = append(res.Violations, v)
+			}
+		}
+
+		res.Outcomes[fmt.Sprintf("conc prog %d ok", cc.First)]++
+
+		if res.Sample == nil {
+			res.Sample = map[string]interface{}{"concurrent_cleanup": true, "program": cc.First, "schedule": r.Choices()}
+		}
+
+		return true
+	})
+
+	res.Execs, res.Transitions, res.States, res.MaxDepth = st.Execs, st.Transitions, st.HBStates, st.MaxDepth
+	if !st.Exhaustive {
+		res.Exhaustive, res.CapHit = false, st.CapHit
+	}
+
+	return res
 }
 
 // c11Real runs one history against the real janitor. Cycles are counted through the EvictionNeeded
@@ -227,6 +342,10 @@ func c11Run(c Cell, env *Env) CellResult {
 
 	if cc.Real {
 		return c11Real(cc, env)
+	}
+
+	if cc.Conc {
+		return c11Conc(cc, env)
 	}
 
 	depth := 4
